@@ -60,6 +60,8 @@ class Handle:
             self.pos = self.pos + off
         else:
             self.pos = self.f.length + off
+        if self.pos < 0:  # (as the real file object: a negative absolute position is refused, the position stays where it was -- modelled as: raises)
+            raise OSError(22, 'Invalid argument')
 
     def tell(self):
         return self.pos
@@ -715,6 +717,11 @@ def overwrite_case(rep):
             refused = False
         except FileExistsError:
             refused = True
+        if refused:  # a refused handle stays unusable for writing: an addField on it must not reach the file either
+            try:
+                g.addField(0.0, SymArr(2, np.float64, 'f'))
+            except (AssertionError, FileNotFoundError, FileExistsError, OSError):
+                pass
         untouched = FS[0].files['x.pysdc'] is F and len(F.events) == 1
         fio.FieldsIO.ALLOW_OVERWRITE = True
         try:
@@ -782,7 +789,10 @@ def real_overwrite(ell, nVar, early=False):
         try:
             g.initialize()
         except FileExistsError:
-            pass
+            try:
+                g.addField(0.0, np.zeros(nVar))
+            except (AssertionError, OSError):
+                pass
         with open(path, 'rb') as f:
             return f.read() != content
     finally:
